@@ -25,7 +25,7 @@ import re
 import sys
 
 from term_image.geometry import Size
-from term_image.padding import AlignedPadding, ExactPadding, HAlign, VAlign
+from term_image.padding import AlignedPadding, ExactPadding, HAlign, Padding, VAlign
 from term_image.render import (
     FinalizedIteratorError,
     RenderIterator,
@@ -216,10 +216,43 @@ def mk_hier_args(a):
     raise AssertionError(rel)
 
 
+# ----------------------------------------------------------------- padding objects by CLASS (C08, IterPadCls)
+#
+# A padding is ["E", l, t, r, b] / ["A", w, h, h_align, v_align], optionally followed by the CLASS of the object:
+#   (absent) / "base"  the library class itself (ExactPadding / AlignedPadding)
+#   "sub"              an instance of a client SUBCLASS of that class (same fields)
+#   "client"           ("E" only) an instance of a client subclass of the abstract `Padding` answering
+#                      `_get_exact_dimensions_` with (l, t, r, b)
+
+
+class SubAligned(AlignedPadding):
+    """A client subclass of AlignedPadding (`AlignedPadding.resolve()` returns `type(self)(...)`)."""
+
+    __slots__ = ()
+
+
+class SubExact(ExactPadding):
+    __slots__ = ()
+
+
+class ClientPadding(Padding):
+    __slots__ = ("dims",)
+
+    def __init__(self, left, top, right, bottom):
+        super().__init__(" ")
+        Padding.__setattr__(self, "dims", (left, top, right, bottom))
+
+    def _get_exact_dimensions_(self, render_size):
+        return self.dims
+
+
 def mk_padding(p):
+    cls = p[5] if len(p) > 5 else "base"
     if p[0] == "E":
-        return ExactPadding(*p[1:5])
-    return AlignedPadding(p[1], p[2], HAlign(p[3]), VAlign(p[4]))
+        if cls == "client":
+            return ClientPadding(*p[1:5])
+        return (SubExact if cls == "sub" else ExactPadding)(*p[1:5])
+    return (SubAligned if cls == "sub" else AlignedPadding)(p[1], p[2], HAlign(p[3]), VAlign(p[4]))
 
 
 def mk_args(a):
